@@ -274,15 +274,9 @@ static std::string obs_pd(const ProjData* pd, const std::string& verdict, const 
          + ",\"bins\":" + std::to_string(bins) + ",\"tof\":" + std::to_string(tof) + ",\"axial\":" + c17::jints(axial) + ",\"readok\":" + (readok ? "true" : "false") + "}";
 }
 
-// `prime`: the header the library wrote itself.  The image readers are first called on it (result
-// discarded) and then, through the same call path, on the mutated header: whatever a reader leaves
-// uninitialised in its stack frame then deterministically holds the values of a successful read
-// (history "good header, then bad header"; this is how the C17-imgnull defect - file name buffer
-// not set when the header does not parse - shows as a crash instead of depending on stack garbage).
-static std::string run_reader(const std::string& reader, const std::string& path, const std::string& prime) {
+static std::string run_reader(const std::string& reader, const std::string& path) {
   std::string msg;
   if (reader == "img_direct") {
-    if (!prime.empty()) { VoxelsOnCartesianGrid<float>* p0 = nullptr; vh::threw([&] { p0 = read_interfile_image(prime); }); delete p0; }
     VoxelsOnCartesianGrid<float>* im = nullptr;
     const bool th = vh::threw([&] { im = read_interfile_image(path); }, &msg);
     std::string o = obs_image(th ? nullptr : im, th ? "error" : (im ? "accepted" : "null"), msg);
@@ -290,7 +284,6 @@ static std::string run_reader(const std::string& reader, const std::string& path
     return o;
   }
   if (reader == "img_generic") {
-    if (!prime.empty()) { unique_ptr<DiscretisedDensity<3, float>> d0; vh::threw([&] { d0 = read_from_file<DiscretisedDensity<3, float>>(prime); }); }
     unique_ptr<DiscretisedDensity<3, float>> d;
     const bool th = vh::threw([&] { d = read_from_file<DiscretisedDensity<3, float>>(path); }, &msg);
     auto* im = dynamic_cast<VoxelsOnCartesianGrid<float>*>(d.get());
@@ -392,7 +385,7 @@ static int hdr_mode(const std::string& work, const std::string& outpath, int lev
       auto L = mutated(c, m);
       for (size_t j = 0; j < L.size(); ++j) { f << L[j]; if (j + 1 < L.size() || m.nl) f << '\n'; }
     }
-    return head(k) + "\"obs\":" + run_reader(c.readers[items[k].r], path, c.kind == "image" ? c.dir + "/" + c.basehdr : std::string()) + "}";
+    return head(k) + "\"obs\":" + run_reader(c.readers[items[k].r], path) + "}";
   };
   auto dead = [&](long k, const std::string& kind) {
     const HdrCase& c = cases[items[k].c];
